@@ -630,9 +630,12 @@ class Puppet:
         await self.rchange(op, 'rset')
 
     async def op_await_lvl(self, op):
+        import operator
+        rel = op.get('rel', 'ge')       # all six comparisons of the tracked level
+
         async def f():
-            await (self.w.pools[op['p']] >= {'a': op['v']})
-        await self.leaf(op, f, {'p': op['p'], 'v': op['v']}, tag={'p': op['p']})
+            await getattr(operator, rel)(self.w.pools[op['p']], {'a': op['v']})
+        await self.leaf(op, f, {'p': op['p'], 'v': op['v'], 'rel': rel}, tag={'p': op['p']})
 
     async def op_levels(self, op):
         self.emit('p', op='levels', p=op['p'], v=self.w.pools[op['p']].levels.a)
